@@ -3,7 +3,7 @@
 import json, os, sys
 VERIF = os.path.dirname(os.path.dirname(os.path.abspath(__file__)))
 sys.path.insert(0, VERIF)
-from harness.obligations import OBLIGATIONS
+from harness.obligations import OBLIGATIONS, BRIDGES, BRIDGE_THEOREMS
 
 NOTE = ("Trusted base: Lean 4.33 kernel; axioms propext/Classical.choice/Quot.sound only (audited per theorem each run); "
         "translator + differential correspondence harness tie the model to /repo; exact-arithmetic semantics "
@@ -198,7 +198,13 @@ def main():
     for p in props:
         pid = p["id"]
         if pid in CHECKS and pid in OBLIGATIONS:
-            c = CHECKS[pid]
+            c = dict(CHECKS[pid])
+            if pid in BRIDGES:
+                nb = sum(len(BRIDGE_THEOREMS[b]) for b in BRIDGES[pid])
+                c["text"] = c["text"] + (" Bridge (second tie, translator): %d kernel-checked theorems (LadimProofs/Bridge/{%s}) state that the "
+                                         "hand-written model functions these theorems are about equal the statement windows / the statement order "
+                                         "of the update rules translated from /repo's current source on every run." % (nb, ",".join(BRIDGES[pid])))
+                c["technique"] = c["technique"] + "; Python-AST-to-Lean translation of the code's statement windows regenerated each run with kernel-checked 'model = generated code' bridge theorems"
             checks.append(dict(
                 property_id=pid,
                 quick_cmd="./check %s --tier quick" % pid,
